@@ -37,6 +37,7 @@ var c14Mods = [][2]string{
 	{"example.com/f", "v2.0.0+incompatible"}, {"rsc.io/Quote", "v1.5.2"}, {"example.com/g", "v1.0.1"}, {"example.com/h", "v1.0.2"},
 	{"example.com/i", "v0.0.0-20200214102310-6d5b0d4f3e5d"}, {"example.com/j", "v1.0.0-prod"}, {"example.com/k/v2", "v2.1.0-rc.m"}, {"example.com/l", "v1.0.1-go.mod"},
 	{"example.com/n", "v1.0.0-rc.1+build.5"}, {"example.com/o", "v2.0.0-pre+incompatible"},
+	{"example.com/p", "v1.2.0-RC1"}, {"github.com/Zeta/lib", "v1.0.0"}, {"example.com/fizzBuZZ", "v0.1.0-Beta.2"},
 }
 
 var c14Private = [][2]string{{"corp.example.com/priv", "v1.0.0"}, {"corp.example.com/priv/sub", "v1.0.0"}, {"x.internal.example/tool", "v0.1.0"}, {"corp.example.com", "v1.0.0"}}
@@ -119,7 +120,7 @@ func c14Run(c *mon.Ctx, key *world.Key, caseID, policy string) {
 	K := []int{1, 2, 4}[r.IntN(3)]
 	G := []int{2, 4, 8, 16}[r.IntN(4)]
 	nMods := 3 + r.IntN(len(c14Mods)-2)
-	h := []int{1, 2, 8}[r.IntN(3)]
+	h := []int{1, 2, 8, 1, 2, 8, 30}[r.IntN(7)]
 	usePatterns := r.IntN(2) == 0
 	patterns := ""
 	if usePatterns {
